@@ -1,4 +1,4 @@
-namespace Mw
+namespace Mw.Cert
 abbrev Str := List Char
 abbrev Fp := Nat   -- fingerprints are opaque, only equality matters
 
@@ -151,4 +151,4 @@ theorem c05_core (rules : List Rule) (hd : ∀ r ∈ rules, DirPrefix r.pre) (pa
       exact dirPrefix_file (hd r hr) hi
     unfold policy at h2 ⊢
     rw [this]; exact h2
-end Mw
+end Mw.Cert
